@@ -271,8 +271,9 @@ def sigma_filter(filename, region, step_size, box_size, shape, domask,
     if _verif_point is not None:
         _verif_point("bkg_read", region)
     logging.debug("background subtraction")
-    data[0 + ymin - data_row_min: data.shape[0] -
-         (data_row_max - ymax), :] -= ibkg[ymin:ymax, :]
+    # subtract over all the rows that were read, including the rows borrowed
+    # from the neighbouring stripes (all stripes have written their part)
+    data -= ibkg[data_row_min:data_row_max, :]
     logging.debug(".. done ")
 
     # reset/recycle the vals array
